@@ -65,12 +65,17 @@ func newRequestHeaderInjector(headers []options.Header) (alice.Constructor, erro
 		return nil, fmt.Errorf("error building request injector: %v", err)
 	}
 
+	names := make([]string, 0, len(headers))
+	for _, header := range headers {
+		names = append(names, header.Name)
+	}
+
 	return func(next http.Handler) http.Handler {
-		return injectRequestHeaders(injector, next)
+		return injectRequestHeaders(injector, names, next)
 	}, nil
 }
 
-func injectRequestHeaders(injector header.Injector, next http.Handler) http.Handler {
+func injectRequestHeaders(injector header.Injector, names []string, next http.Handler) http.Handler {
 	return http.HandlerFunc(func(rw http.ResponseWriter, req *http.Request) {
 		scope := middlewareapi.GetRequestScope(req)
 
@@ -78,8 +83,50 @@ func injectRequestHeaders(injector header.Injector, next http.Handler) http.Hand
 		// A scope should always be injected before this handler is called.
 		injector.Inject(req.Header, scope.Session)
 		flattenHeaders(req.Header)
+		removeConnectionTokens(req.Header, names)
 		next.ServeHTTP(rw, req)
 	})
+}
+
+// removeConnectionTokens removes the given header names from the request's
+// Connection header. A header the client lists there is treated as hop-by-hop
+// by the reverse proxy and would be dropped before it reaches the upstream,
+// which would let a client suppress the injected headers.
+func removeConnectionTokens(headers http.Header, names []string) {
+	values := headers.Values("Connection")
+	if len(values) == 0 {
+		return
+	}
+	kept := []string{}
+	removed := false
+	for _, value := range values {
+		for _, token := range strings.Split(value, ",") {
+			token = strings.TrimSpace(token)
+			if token == "" {
+				continue
+			}
+			injected := false
+			for _, name := range names {
+				if strings.EqualFold(token, name) {
+					injected = true
+					break
+				}
+			}
+			if injected {
+				removed = true
+				continue
+			}
+			kept = append(kept, token)
+		}
+	}
+	if !removed {
+		return
+	}
+	if len(kept) == 0 {
+		headers.Del("Connection")
+		return
+	}
+	headers.Set("Connection", strings.Join(kept, ", "))
 }
 
 func NewResponseHeaderInjector(headers []options.Header) (alice.Constructor, error) {
